@@ -57,27 +57,41 @@ class RefModel:
         return c
 
     def check_bootstrap(self, events, B, sample_size):
-        """returns (critical value or None, error message or None)"""
+        """returns (list of bootstrap divergences or None, error message or None).  Accepted drawing schemes: B draws of 2n cells,
+        2B draws of n cells, or one draw of shape (B, 2n); anything else whose total is right is reported as 'scheme not understood'
+        (inconclusive), a wrong amount of drawn cells or a wrong distribution is a violation."""
         ch = [e for e in events if e[0] == "choice"]
-        if len(ch) != B:
-            return None, "the RNG log shows %d choice() draws while building the reference, bootstrap_samples is %d" % (len(ch), B)
-        dists = []
+        if not ch:
+            return None, "no bootstrap draw was made (numpy.random.choice was not called) while building the reference"
+        drawn = []
         for (_, a, k, res) in ch:
-            size = k.get("size", a[1] if len(a) > 1 else None)
-            p = k.get("p", None)
+            p = k.get("p", a[3] if len(a) > 3 else None)
             pool = a[0]
-            if size != 2 * sample_size:
-                return None, "bootstrap draw of size %r, expected 2 x %d" % (size, sample_size)
-            if p is None or len(p) != self.L or len(pool) != self.L:
+            npool = pool if isinstance(pool, (int, np.integer)) else len(pool)
+            if p is None or len(p) != self.L or npool != self.L:
                 return None, "bootstrap drawn over %r cells with p of length %r; the reference tree has %d leaves" % (
-                    len(pool), None if p is None else len(p), self.L)
+                    npool, None if p is None else len(p), self.L)
             if not np.allclose(np.sort(np.asarray(p, dtype=float)), np.sort(self.ref_dist), rtol=1e-12, atol=1e-15):
                 return None, "bootstrap probabilities %r are not the corrected reference leaf distribution %r" % (
                     np.round(p, 6).tolist(), np.round(self.ref_dist, 6).tolist())
-            res = np.asarray(res)
-            h1 = np.bincount(res[:sample_size], minlength=self.L)
-            h2 = np.bincount(res[sample_size:], minlength=self.L)
-            dists.append(scipy.stats.entropy(distn(h1), distn(h2)))
+            drawn.append(np.asarray(res))
+        total = sum(r.size for r in drawn)
+        if total != 2 * sample_size * B:
+            return None, "%d cells were drawn in %d call(s); bootstrap_samples=%d pairs of samples of size %d need %d" % (
+                total, len(drawn), B, sample_size, 2 * sample_size * B)
+        if len(drawn) == B and all(r.shape == (2 * sample_size,) for r in drawn):
+            pairs = [(r[:sample_size], r[sample_size:]) for r in drawn]
+        elif len(drawn) == 2 * B and all(r.shape == (sample_size,) for r in drawn):
+            pairs = [(drawn[2 * i], drawn[2 * i + 1]) for i in range(B)]
+        elif len(drawn) == 1 and drawn[0].shape == (B, 2 * sample_size):
+            pairs = [(r[:sample_size], r[sample_size:]) for r in drawn[0]]
+        else:
+            return None, "SCHEME: drawing scheme not understood (%d calls, shapes %r)" % (len(drawn), [r.shape for r in drawn][:4])
+        dists = []
+        for h1, h2 in pairs:
+            c1 = np.bincount(h1, minlength=self.L)
+            c2 = np.bincount(h2, minlength=self.L)
+            dists.append(scipy.stats.entropy(distn(c1), distn(c2)))
         return dists, None
 
 
@@ -162,6 +176,9 @@ def run_batch(case, ctx):
             if built is not None:
                 model = RefModel(built, kw["count_ubound"], kw["cutpoint_proportion_lbound"])
                 dists, err = model.check_bootstrap(ev, kw["bootstrap_samples"], len(built))
+                if err and err.startswith("SCHEME"):
+                    ctx.mark_inconclusive(err)
+                    return
                 if err:
                     ctx.violation("C09/batch/bootstrap", "call %d (%s): %s" % (i, op, err), **base)
                     return
@@ -309,6 +326,9 @@ def run_stream(case, ctx):
                 if len(epoch) == w:
                     model = RefModel(np.array(epoch), kw["count_ubound"], kw["cutpoint_proportion_lbound"])
                     dists, err = model.check_bootstrap(ev, kw["bootstrap_samples"], w)
+                    if err and err.startswith("SCHEME"):
+                        ctx.mark_inconclusive(err)
+                        return
                     if err:
                         ctx.violation("C09/stream/bootstrap", "sample %d completes the reference window: %s" % (i, err), **base)
                         return
